@@ -386,6 +386,59 @@ empty @is_you(int a, byte b) { write(f(a)); write(' '); write(@f(a)); write(' ')
   int[] arr = [a, 5, 9 - a]; g(arr); @g(arr); try { !g(arr); write('m'); } stop { write('s'); } write(f(a) + @f(a)); }''', [['3', '1'], ['0', '2'], ['7', '255']]),
 ]
 
+# ------------------------------------------------------------------------------------------------ large and unusual shapes
+def large_shapes():
+    """legal programs a generator rarely writes: frames beyond 255 bytes, nine parameters, arrays of 250 elements, literals of
+    120 elements, strings of 330 bytes, 70 string constants, 60 functions, recursion 25 deep, empty blocks and statements,
+    `for` with missing clauses, else-if chains, three-level indices, long and/or chains, triple `not`, casts of casts,
+    three levels of shadowing; time travel in odd places (`??` in a loop bound, an array length, an argument; empty try
+    bodies and handlers; a handler with a loop and `continue`)"""
+    progs = {}
+    # 1. many locals (frame > 255 bytes), 9 parameters
+    locs = ' '.join('int v%d = a + %d;' % (i, i) for i in range(70))
+    locs_n = locs.replace('= a +', '= p1 +')
+    suml = ' + '.join('v%d' % i for i in range(0, 70, 7))
+    progs['big_frame'] = '''int nine(int p1, int p2, int p3, byte p4, int p5, bool p6, int p7, string p8, int p9) { %s byte tail = p4; return %s + p1 + p9 + (p6 is int) + p8.length + tail + v69; }
+    empty @is_you(int a) { %s write(nine(a, 2, 3, 'c', 5, a > 0, 7, "eight", 9)); write(' '); write(%s); int[] arr = [v0, v35, v69]; write(arr[2]); }''' % (locs_n, suml, locs, suml)
+    # 2. arrays longer than 255 / 256, bool arrays > 64, literal with 100+ elements
+    lit = ', '.join(str((i * 7) % 251) for i in range(120))
+    progs['big_arrays'] = '''int[] G = [%s]; bool flags[250]; byte big[250];
+    empty @is_you(int n) { int s = 0; for (int i = 0; i < G.length; i += 1) { s += G[i]; } write(s); write(' '); flags[249] = true; flags[64] = true; flags[65] = n > 0; write(flags[249]); write(flags[64]); write(flags[65]); write(flags[63]); write(flags.length);
+      big[128] = 'x'; big[127] = 'y'; big[249] = 'z'; write(big[128]); write(big[127]); write(big[249]); write(big.length); int loc[250]; loc[249] = n; loc[128] = 7; loc[0] = 1; write(loc[249] + loc[128] + loc[0]); write(loc.length);
+      int[] ll = [%s]; write(ll[119]); write(ll.length); write(G[n %% 120]); }''' % (lit, lit)
+    # 3. long strings and many string constants
+    long_s = ''.join(chr(97 + (i * 5) % 26) for i in range(330))
+    many = ' '.join('write("s%03d");' % i for i in range(0, 70))
+    progs['long_strings'] = 'string L = "%s"; empty @is_you(int n) { write(L.length); write(L[329]); write(L[256]); write(L[255]); string m = "%s"; write(m.length); write(m[n %% 300]); %s }' % (long_s, long_s[::-1], many)
+    # 4. syntax oddities
+    progs['odd_syntax'] = '''int deep(int n) { if (n <= 0) { return 0; } return 1 + deep(n - 1); }
+    empty nothing() { } empty nested() { { { { } } } ; ; }
+    int chain(int x) { if (x == 0) { return 10; } else if (x == 1) { return 11; } else if (x == 2) { return 12; } else if (x == 3) { return 13; } else { return 14; } }
+    empty @is_you(int a) { nothing(); nested(); ;; { } write(deep(25)); write(' '); for (;;) { a += 1; if (a > 5) { break; } } write(a); for (int i = 0; ; i += 1) { if (i == 3) { break; } write(i); } int k = 0; for (; k < 2;) { k += 1; } write(k);
+      write(chain(0)); write(chain(3)); write(chain(9)); write(((((((((a)))))))) + 1); int[] m = [2, 0, 1]; int[] o = [1, 2, 0]; write(m[o[m[0]]]); write(not not not (a > 0)); write((((a is byte) is int) is byte) is int);
+      write(a > 0 and a > 1 and a > 2 and a > 3 and a > 4 and a > 5 and a > 6 and a > 7 and a > 8 and a > 9 and a > 10); write(a < 0 or a < 1 or a < 2 or a < 3 or a < 4 or a < 5 or a < 6 or a < 7 or a < 8 or a < 9 or a < 100);
+      int x = 1; { int y = x + 1; { int z = y + 1; write(z); } } }'''
+    # 5. shadowing three levels, for-init variable, many functions
+    funcs = '\n'.join('int f%d(int x) { return x + %d; }' % (i, i) for i in range(60))
+    calls = ' + '.join('f%d(a)' % i for i in range(0, 60, 6))
+    progs['many_functions'] = '''int x = 100; %s
+    int sh(int x) { int r = x; { int x2 = r * 2; for (int x3 = 0; x3 < 2; x3 += 1) { r += x2 + x3; } } return r + x; }
+    empty @is_you(int a) { write(%s); write(' '); write(sh(a)); write(x); }''' % (funcs, calls)
+    # 6. time travel oddities
+    progs['tt_odd'] = '''int g = 0;
+    empty !d(int n) { if (n > 0) { !d(n - 1); } else { !truth_is_defeat(g == 1); } }
+    int @helper(int a) { for (int i = 0; i < 3; i += 1) { try { g = (a == i) is int; !d(3); write('k'); } stop { write('s'); for (int j = 0; j < 2; j += 1) { if (j == 1) { break; } write(j); } continue; } write('.'); } return a; }
+    empty @is_you(int a) { try { g = 1; !d(2); } undo { write(@helper(a)); } try { } undo { write('E'); } try { write('e'); } stop { } int q = (a ?? 3) + (deepq(a) ?? 1); write(q); for (int i = 0; i < (a ?? 2); i += 1) { write('l'); } int arr[(a ?? 1) + 1]; write(arr.length); write(pass(a ?? 5)); }
+    int deepq(int a) { return a * 2; } int pass(int v) { return v; }'''
+    items = []
+    for name, src in progs.items():
+        for args in (['1'], ['4']):
+            for w in (2, 3):
+                items.append(runner.Item(('large', name, tuple(args), w), src, args, w=w, s=700,
+                                         meta={'family': 'large_' + name, 'classifier': {'seq': 'large_' + name}}))
+    return items
+
+
 # ------------------------------------------------------------------------------------------------ constants beyond 16 bits
 WIDE_PROG = '''int big = 100000; int neg = -100000; int edge = 65536; int nedge = -65536; int e1 = 65535; int ne1 = -65537;
 const int[] TAB = [70000, -70000, 8388607, -8388607, 16777, -1]; int[] MTAB = [-8000000, 8000000];
